@@ -15,6 +15,7 @@ EXPLANATION = (
     "clears its slot before returning to the pool and ends on a None job; close hands None to every worker and empties both "
     "sets."
     "Also decided: the pool's set discipline (idle first, chosen worker counted busy, new worker started, finished worker leaves busy and is idle-or-retired under the minimum test), the worker waits for and clears its event each round, nothing fallible runs in denyConnection outside its try/finally and nothing escapes it, the refusal is encodable and its header names its encoding. "
+    'Also decided (round 7): A worker is handed back to the pool only by a thread that stays alive; the event is cleared before the slot is read and not again before the next wait. '
     "Not decided: races inside the interpreter's set operations, liveness of close, timing."
 )
 
